@@ -37,6 +37,9 @@ structure Facts where
   addAppends : Bool
   /-- `interpretSlice` returns `t[start:end]` (shares the backing array) -/
   sliceShares : Bool
+  /-- does the native builtin of this name accept a frozen list where it takes a list?  (false when its Go
+      function asserts `.(pyList)` and never mentions `pyFrozenList` — regenerated, harness/extract/c18) -/
+  frozenOK : String → Bool
 
 inductive Val
   | int (n : Int)
